@@ -14,7 +14,9 @@ THEOREMS = ["C05_source_shape", "C05_attempt_budget", "C05_non_retryable_once", 
             # every reachable state of the runner, every schedule
             "C05_accounting_init", "C05_accounting_init_resumed", "C05_accounting_invariant", "C05_retry_records_wellformed",
             "C05_budget_never_exceeded", "C05_reported_attempts_exact", "C05_no_policy_single_attempt", "C05_delay_budget_reachable",
-            "C05_step_failed_event_exact", "C05_retry_info_reachable", "C05_accounting_source_shape"]
+            "C05_step_failed_event_exact", "C05_retry_info_reachable", "C05_accounting_source_shape",
+            # one failed execution, one successor: refuted (stale collect re-run + granted retry in one result list), guarded part, whole-run witness
+            "C05_refuted_failed_execution_one_successor", "C05_failed_execution_one_successor_partial", "C05_fork_run_exceeds_budget"]
 LEAN_TARGETS = ["WfProps.C05"]
 EXPLANATION = (
     "Policy layer (bodies translated from retry_policy.py on every run): stop_after_attempt(n) => exactly max(n,1) "
